@@ -65,13 +65,14 @@ func sameSet(a []string, b map[string]bool) bool {
 }
 
 func c20Workspaces(thorough bool) [][]qnode {
-	// 4 targets: t0,t1 in package a; t2 in b; t3 = "e2e_test" in b (a test target; nobody may depend on it).
+	// 4 targets: t0,t1 in package a; a second t0 in package b (same name, other package: both may be dependencies of one
+	// target); t3 = "e2e_test" in b (a test target; nobody may depend on it).
 	// optional alias al in package b pointing at one of t0..t2, usable as a dependency of higher targets.
 	var out [][]qnode
 	base := []qnode{
 		{pkg: "a", name: "t0", inputs: []string{"./t0.in", "shared.in"}}, // a literal input spelled non-canonically
 		{pkg: "a", name: "t1", inputs: []string{"t1.in", "shared.in"}},
-		{pkg: "b", name: "t2", inputs: []string{"sub/../t2.in", "sub/*.txt"}},
+		{pkg: "b", name: "t0", inputs: []string{"sub/../t2.in", "sub/*.txt"}},
 		{pkg: "b", name: "e2e_test", inputs: []string{"t3.in"}, isTest: true},
 	}
 	pairs := [][2]int{{0, 1}, {0, 2}, {0, 3}, {1, 2}, {1, 3}, {2, 3}} // dep -> dependant (lower -> higher)
@@ -147,7 +148,7 @@ func c20Source(ns []qnode) *hist.Source {
 func init() {
 	Registry["C20"] = func(c *Ctx) {
 		c.R.Rule = "every workspace of a family (4 targets in two packages, every subset of the 6 possible lower->higher dependency edges = all DAG shapes incl. diamonds, plus variants in which one edge goes through an alias; one target is a test target) is materialised on disk and queried with the REAL binary: grog deps / deps -t / rdeps / rdeps -t for every node, --target-type=test|no_test, grog owners for every input file (incl. a file shared by two targets, glob-resolved files, a same-named file in another package and an unowned file), grog list for 8 pattern forms. Printed label sets must equal reference reachability sets, each label printed once, deps* and rdeps* must be mutual inverses. Second part: every single-file edit of the C01 model workspace followed by a build started in each directory of the workspace in turn: executed targets ⊆ owners(f) ∪ rdeps*(owners(f)) as printed by the binary itself. Non-trivial = a query whose expected answer is non-empty."
-		c.R.Assume("stdout lines starting with // are the answer of a query command", "with --target-type other than all only target labels are compared (alias nodes are not typed)")
+		c.R.Assume("edit part: regular input files only; a file that is an input only through a symbolic link is not an input file by its own path and is left out (symlinked inputs are covered by C01)", "stdout lines starting with // are the answer of a query command", "with --target-type other than all only target labels are compared (alias nodes are not typed)")
 		grog, err := vc.BuildGrog("grog", nil)
 		if err != nil {
 			c.R.BrokenCheck("%v", err)
@@ -393,7 +394,12 @@ func c20EditPart(c *Ctx, grog, base string) {
 		return
 	}
 	var files []string
-	for p := range src.Files {
+	for p, f := range src.Files {
+		if f.Link != "" || strings.HasPrefix(p, "a/shared/") {
+			// symbolic links and the files behind them: such a file is not an input by its own path (grog owners answers
+			// by path), see the assumptions
+			continue
+		}
 		files = append(files, p)
 	}
 	sort.Strings(files)
